@@ -15,6 +15,7 @@ mod suite;
 mod toy;
 mod record;
 mod codec;
+mod taproot;
 
 use std::collections::BTreeMap;
 use std::io::{BufRead, Write};
@@ -432,6 +433,17 @@ fn main() {
         Some("record") => record::cmd_record(&args[2..]),
         Some("run") => cmd_run(&args[2..]),
         Some("codec") => cmd_codec(&args[2..]),
+        Some("taproot") => {
+            let a = &args[2..];
+            let seed: u64 = arg_val(a, "--seed").and_then(|s| s.parse().ok()).unwrap_or(1);
+            let n: u64 = arg_val(a, "--sessions").and_then(|s| s.parse().ok()).unwrap_or(200);
+            let out = arg_val(a, "--events").expect("--events");
+            let mut f = std::io::BufWriter::new(std::fs::File::create(out).expect("events file"));
+            let k = taproot::run(seed, n, &mut f);
+            let _ = f.flush();
+            println!("SUMMARY {}", json!({"sessions": k}));
+            0
+        }
         _ => {
             eprintln!("usage: fv replay|record ...");
             2
